@@ -43,7 +43,7 @@ def project(model) -> dict:
 
 
 def init_line(model, keep_ctx=False) -> str:
-    return json.dumps({"op": "init", "keep_ctx": keep_ctx, "univR": UNIV_R, "univM": UNIV_M, "univG": UNIV_G, "rev": REV,
+    return json.dumps({"op": "init", "keep_ctx": keep_ctx, "depth": len(getattr(model, "_contexts", [])), "univR": UNIV_R, "univM": UNIV_M, "univG": UNIV_G, "rev": REV,
                        "content": canon.content_dump(model), "glpk": canon.glpk_dump(model)})
 
 
@@ -124,6 +124,7 @@ def run_trace(rng, spec, nops, kinds=None, oracles=("xref", "sync", "ctx"), extr
             # reaction *= k: Core.imul
             modelled = True
             line_op = {"op": "imul", "r": op["r"], "k": op["k"]}
+        depth_before = ex.depth
         err = ex.apply(op)
         probs = []
         if err is not None and err not in DOCUMENTED_ERRORS:
@@ -152,7 +153,10 @@ def run_trace(rng, spec, nops, kinds=None, oracles=("xref", "sync", "ctx"), extr
             t.failures.append({"step": len(t.ops) - 1, "op": op, "err": err, "what": p})
         if state is None:
             break
-        if modelled and not (op["op"] == "set_rule"):
+        if op["op"] == "set_rule":
+            # outside a context the rule assignment is Core.setRule (the text is parsed by the Lean GPR parser); inside one it is re-read
+            modelled = depth_before == 0 and in_universe(ex.model)
+        if modelled:
             t.lines.append(json.dumps(line_op))
             t.expect.append({"err": err, "state": state})
         else:
@@ -230,6 +234,7 @@ def replay_ops(spec, ops, oracles=("xref", "sync", "ctx"), extra_oracle=None):
             for sn in snaps:
                 sn[1] = True
         before = canon.full_dump(ex.model) if extra_oracle else None
+        depth_before = ex.depth
         err = ex.apply(op)
         probs = []
         if err is not None and err not in DOCUMENTED_ERRORS:
